@@ -4110,6 +4110,17 @@ func SendXMLResponse(ctx *fiber.Ctx, resp any, err error, l *MetaOpts) error {
 		}
 	}
 
+	// a response that is too large is an error response: it is
+	// neither logged as a success nor notified
+	if !ok && len(xmlhdr)+len(b) > maxXMLBodyLen {
+		debuglogger.Logf("XML encoded body len %v exceeds max len %v",
+			len(xmlhdr)+len(b), maxXMLBodyLen)
+		ctx.Status(http.StatusInternalServerError)
+
+		return ctx.Send(s3err.GetAPIErrorResponse(
+			s3err.GetAPIError(s3err.ErrInternalError), "", "", ""))
+	}
+
 	if l.Logger != nil {
 		l.Logger.Log(ctx, nil, b, s3log.LogMeta{
 			Action:      l.Action,
@@ -4138,14 +4149,6 @@ func SendXMLResponse(ctx *fiber.Ctx, resp any, err error, l *MetaOpts) error {
 	}
 
 	msglen := len(xmlhdr) + len(b)
-	if msglen > maxXMLBodyLen {
-		debuglogger.Logf("XML encoded body len %v exceeds max len %v",
-			msglen, maxXMLBodyLen)
-		ctx.Status(http.StatusInternalServerError)
-
-		return ctx.Send(s3err.GetAPIErrorResponse(
-			s3err.GetAPIError(s3err.ErrInternalError), "", "", ""))
-	}
 	res := make([]byte, 0, msglen)
 	res = append(res, xmlhdr...)
 	res = append(res, b...)
